@@ -4,6 +4,7 @@ import (
 	"context"
 	sqldriver "database/sql/driver"
 	"io"
+	"reflect"
 
 	"github.com/akrennmair/updog"
 )
@@ -31,7 +32,8 @@ func drvRowKind(k int) drvRow {
 
 // drvData: two forked rows plus one fixed row.
 func drvData() []drvRow {
-	rows := []drvRow{drvRowKind(verifChoice("row0", 6)), drvRowKind(verifChoice("row1", 6)), {"a": "x", "b": "p"}}
+	// the fixed row also has a column that is itself called "count", like the result column
+	rows := []drvRow{drvRowKind(verifChoice("row0", 6)), drvRowKind(verifChoice("row1", 6)), {"a": "x", "b": "p", "count": "few"}}
 	return rows
 }
 
@@ -152,6 +154,12 @@ func drvCheckRows(tag string, q drvQuery, rows []drvRow, r sqldriver.Rows) {
 			verifAssert(t.ColumnTypeDatabaseTypeName(i) == "TEXT", tag+": group-by columns are typed TEXT")
 		}
 		verifAssert(t.ColumnTypeDatabaseTypeName(len(cols)-1) == "BIGINT", tag+": count is typed BIGINT")
+	}
+	if t, ok := r.(sqldriver.RowsColumnTypeScanType); ok {
+		for i := range q.groupBy {
+			verifAssert(t.ColumnTypeScanType(i) == reflect.TypeOf(""), tag+": group-by columns scan into strings")
+		}
+		verifAssert(t.ColumnTypeScanType(len(cols)-1) == reflect.TypeOf(int64(0)), tag+": count scans into an int64")
 	}
 	if len(q.groupBy) == 0 {
 		verifAssert(len(got) == 1, tag+": without group-by exactly one row holds the total count")
